@@ -164,9 +164,10 @@ REGISTRY = {
                            "Bounded: interleavings of scripted sessions and registration scenarios.",
             "assumptions": ["LDAPResultCode._missing_ inserts pseudo-members into the enum's value map: declared benign (same value, same name)",
                             "syntactic frame rules are sound for code without reflection (setattr/globals()/exec are checked for only on option objects)"]},
-    "C18": {"jobs": FILTER_TEXT + DECODE_TREE, "native": "native_c18.py", "level": "other",
+    "C18": {"jobs": FILTER_TEXT + DECODE_TREE, "static": "cost", "native": "native_c18.py", "level": "other",
             "explanation": "Proved (decreases obligations): every loop and every recursive call of the RFC 4515 text scanners and of the BER decode tree strictly decreases a non-negative measure bounded by the input length "
                            "(remaining octets of the span / of the reader), so each loop runs at most linearly often and recursion depth is at most the input length; the loops of asn1.py likewise (C07). "
+                           "A syntactic rule per function of the recursive parser cycles (no-retry-after-failure) adds that a failing call is never caught and tried again, so a parse makes at most n returning calls plus one failing one. "
                            "This bounds the number of steps by a polynomial whose degree is the fixed nesting depth of the code, given that the primitive operations (slices, regex matches) are polynomial - which is what the rest decides: "
                            "Decision procedure per compiled pattern: no exponential ambiguity in the Glushkov automaton built from this interpreter's sre parse tree (exact, full Unicode alphabet); "
                            "refutations are replayed by timing the real pattern under a hard timeout. Hand-written scanners: bounded growth probe on adversarial families (labelled bounded); the decreases "
